@@ -328,9 +328,9 @@ def scenario(w):
     edits = valid_edits(variant)
     for step in range(nops):
         if mode == 'addressing':
-            kind = ch.wchoice('op', ['set', 'get', 'del', 'persist'], [5, 2, 2, 2])
+            kind = ch.wchoice('op', ['set', 'get', 'del', 'persist', 'decoy'], [5, 2, 2, 2, 1])
         else:
-            kind = ch.wchoice('op', ['set', 'del', 'persist', 'behave'], [5, 1, 2, 3])
+            kind = ch.wchoice('op', ['set', 'del', 'persist', 'behave', 'decoy'], [5, 1, 2, 3, 1])
         if kind in ('set', 'get', 'del') and mode == 'addressing':
             paths = ['/'.join(p) for p in all_paths(model)]
             src = ch.wchoice('path.src', ['existing', 'new-leaf', 'missing-parent', 'too-deep', 'under-scalar'], [6, 3, 1, 1, 1])
@@ -354,6 +354,16 @@ def scenario(w):
                 if not do_edit(kind, path):
                     return
             if not read_all():
+                return
+        elif kind == 'decoy':
+            # another configuration object is created and edited; this one must not notice
+            other = S.get_config(VARIANTS[ch.pick('decoy.variant', len(VARIANTS))])
+            other['imf_opts/sd_thresh'] = 0.4321
+            other['extrema_opts/mag_pad_opts/stat_length'] = 7
+            other['envelope_opts'] = {'interp_method': 'mono_pchip'}
+            del other['extrema_opts/pad_width']
+            hist.append('decoy')
+            if not check_store('decoy') or not read_all():
                 return
         elif kind == 'set':
             ed = edits[ch.pick('edit', len(edits))]
